@@ -414,3 +414,5 @@ def run(chk, tier):
     chk.guard('C15.d', lambda: rule_static_escape(chk, prog, tier))
     chk.guard('C15.e', lambda: rule_controlling(chk, prog, tier))
     chk.guard('C15.f', lambda: rule_case_conversion(chk, prog, tier))
+    from props import c03
+    chk.guard('C03.m', lambda: c03.rule_mnemonics(chk, prog, tier))       # the compare ladder and the promotion of the controlling expression reach the backend as text
